@@ -64,6 +64,8 @@ func supportScripts(env *Env) {
 		}
 	}
 	nscript := 0
+	keepMemo = true
+	defer func() { keepMemo = false }()
 	for ci, c := range calls {
 		for _, in := range c.on {
 			if quick && in == 1 {
@@ -82,6 +84,7 @@ func supportScripts(env *Env) {
 					if d < 20 {
 						a["mk"] = true
 					}
+					keepMemo = !(d == 0 && r == 0) // a new call on a new object: nothing earlier can repeat it
 					steps := []*Step{insts[in], {Op: c.op, Recv: 1, A: a}}
 					runSteps(env, fmt.Sprintf("s%d", nscript), nscript, func(h *heapRun, i int) *Step {
 						if i >= len(steps) {
